@@ -95,8 +95,12 @@ def analyse(prop, root):
             if (o.rule, site) in keys2 or "*" in open2:
                 continue        # confirmed, or the second reading as a whole is incomplete
             if site not in ctx2.prog.functions and site not in ("<module>", "None"):
-                continue        # the function the finding sits in was itself dissolved: the second reading has nothing to set against it
-            if (o.rule, site) in open2k or (o.rule, "<module>") in open2k or (site in ("<module>", "None") and (o.rule in open2 or any(r_ == o.rule for r_, _ in keys2))):
+                # the function the finding sits in was itself dissolved into its callers: the finding is confirmed if the second
+                # reading reports the same rule anywhere, and stands if it leaves that rule open anywhere; if the rule holds
+                # everywhere in the second reading, the two readings contradict each other
+                if any(r_ == o.rule for r_, _ in keys2) or any(r_ == o.rule for r_, _ in open2k):
+                    continue
+            elif (o.rule, site) in open2k or (o.rule, "<module>") in open2k or (site in ("<module>", "None") and (o.rule in open2 or any(r_ == o.rule for r_, _ in keys2))):
                 continue        # the second reading leaves this very rule open at this place
             o.status = UNDECIDED
             o.detail += " [not confirmed: read again with %s inlined, rule %s holds everywhere - two readings of equivalent code disagree, so this is not reported as a violation]" % (
